@@ -133,13 +133,18 @@ def rule_flow_config_names(ctx):
             if not (isinstance(ret, tuple) and ret[0] == 'aggr'):
                 r.violate(nid, 'setter-shape', b.name, 'builder setter %s does not return a rebuilt builder' % nid, where=ctx.where(nid))
                 continue
-            adt = prog.adts.get(ret[1])
-            fnames = [f['name'] for f in adt['variants'][0]['fields']]
-            changed = []
-            for fname, v in zip(fnames, ret[3]):
-                preserved = v == ('fld', ('param', 1), fname)
-                if not preserved:
-                    changed.append((fname, v))
+            # leaf-wise difference between the returned builder and `self` (nested private structs are looked into)
+            def diff(v, base, name):
+                if v == base:
+                    return []
+                a_ = prog.adts.get(norm(str(v[1]))) if (isinstance(v, tuple) and v and v[0] == 'aggr') else None
+                if a_ and a_['kind'] == 'Struct' and len(a_['variants'][0]['fields']) == len(v[3]):
+                    out_ = []
+                    for f_, fv in zip([x['name'] for x in a_['variants'][0]['fields']], v[3]):
+                        out_ += diff(fv, ('fld', base, f_), f_)
+                    return out_
+                return [(name, v)]
+            changed = diff(ret, ('param', 1), 'self')
             n += 1
             ok = len(changed) == 1 and changed[0][0] == b.name and any(x == ('param', 2) for x in subterms(changed[0][1])) and \
                 isinstance(changed[0][1], tuple) and changed[0][1][0] == 'aggr' and changed[0][1][2] == 'Some'
@@ -375,6 +380,53 @@ def _initcap_taint(ctx, b, seeds):
     return taint, op_t
 
 
+def _is_value_match(ctx, b, bi, t):
+    """The switch tests only whether an Option is Some, both arms re-join at one block, and in between there is nothing but
+    moves, arithmetic and the allowed adaptor calls (no other call, no return, no write through a reference)."""
+    dl = op_local(t['discr'])
+    if dl is None:
+        return False
+    ds = b.defs().get(dl, [])
+    if not (len(ds) == 1 and ds[0][0] == 'assign' and ds[0][3]['rv']['rv'] == 'discr'):
+        return False
+    src = ds[0][3]['rv']['pl']
+    if not b.local_ty(src['l'])['s'].startswith('std::option::Option<') and not any(isinstance(e, dict) for e in src.get('p', [])):
+        return False
+    pdom, _nodes = b.postdominators()
+    succ, _pred, _seen = b.cfg()
+    arms = [a[1] for a in t['arms']] + [t['otherwise']]
+    # the join: a block post-dominating every arm target
+    cands = None
+    for a in arms:
+        if b.blocks[a]['term']['t'] == 'unreachable':
+            continue
+        pd = set(pdom.get(a, set())) | {a}
+        cands = pd if cands is None else (cands & pd)
+    if not cands:
+        return False
+    region, work = set(), [a for a in arms if b.blocks[a]['term']['t'] != 'unreachable']
+    while work:
+        x = work.pop()
+        if x in region or x in cands:
+            continue
+        region.add(x)
+        work.extend(succ.get(x, []))
+    if len(region) > 12:
+        return False
+    for x in region:
+        tt = b.blocks[x]['term']
+        if tt['t'] in ('return', 'switch'):
+            return False
+        if tt['t'] == 'call':
+            _tg, ext, _ps = ctx.prog.call_targets(b, tt)
+            if not (ext and any(str(ext).endswith(y) for y in ALLOWED_INITCAP_CALLS)):
+                return False
+        for s_ in b.blocks[x]['stmts']:
+            if s_['st'] == 'assign' and any(e == '*' for e in s_['pl'].get('p', [])):
+                return False
+    return True
+
+
 def rule_initcap_sink(ctx):
     r = RuleResult('FLOW-initcap-sink', 'initial_capacity flows only (through Option adaptors and + WRITE_LOG_SIZE) into the map constructor '
                    'with_capacity_and_hasher; no branch and no other call depends on it: it has no observable effect')
@@ -393,6 +445,13 @@ def rule_initcap_sink(ctx):
             if not taint and not has_field_read:
                 continue
             for bi, t in b.all_terms():
+                if t['t'] == 'switch' and op_t(t['discr']) and _is_value_match(ctx, b, bi, t):
+                    # `match initial_capacity { Some(c) => f(c), None => k }`: the same value selection as map(..).unwrap_or(..) -- the arms only
+                    # compute the capacity and re-join; nothing else depends on the test
+                    if rnd == 1:
+                        n += 1
+                        r.instance(function=nid, kind='option-match computing the capacity', line=t.get('line'), ok=True)
+                    continue
                 if t['t'] == 'switch' and op_t(t['discr']):
                     if rnd == 1:
                         n += 1
@@ -424,4 +483,56 @@ def rule_initcap_sink(ctx):
                         r.violate(nid, 'initial-capacity-sink', str(callee).split('::')[-1], 'a value computed from initial_capacity is passed to %s in %s' % (callee, nid),
                                   where=ctx.where(nid, t.get('line')), expected='only Option adaptors, + WRITE_LOG_SIZE, with_capacity_and_hasher')
     r.require_floor(8 if ctx.has_sync else 3, 'uses of initial_capacity')
+    return r
+
+
+def rule_store_config(ctx):
+    r = RuleResult('MUST-store-config', 'the constructors store max_capacity, time_to_live and time_to_idle exactly as given: on every path the field of the '
+                   'constructed cache state holds the parameter (or the field of a parameter struct) of the same name, unconditionally -- policy() and the '
+                   'expiry / capacity predicates read these fields')
+    from .symex import subterms, fmt, PathLimit
+    prog = ctx.prog
+    targets = [('unsync::cache::Cache', 'unsync')]
+    if ctx.has_sync:
+        targets.append(('sync::base_cache::Inner', 'sync'))
+    WANT = ('max_capacity', 'time_to_live', 'time_to_idle')
+    n = 0
+    for adt_name, kind in targets:
+        adt = prog.adts.get(adt_name)
+        if not adt:
+            raise CheckFailure('MUST-store-config: state struct %s not found' % adt_name)
+        names = [f['name'] for f in adt['variants'][0]['fields']]
+        ctors = sorted(nid for nid, b in prog.bodies.items() if b.kind != 'closure' and any(
+            s_['st'] == 'assign' and s_['rv']['rv'] == 'aggr' and s_['rv'].get('kind') == 'adt' and norm(s_['rv'].get('adt') or '') == adt_name for _, _, s_ in b.stmts()))
+        if not ctors:
+            raise CheckFailure('MUST-store-config: no constructor of %s found' % adt_name)
+        for nid in ctors:
+            b = prog.bodies[nid]
+            pname = {i: ALIASES.get(b.local_name(i), b.local_name(i)) for i in range(1, b.argc + 1)}
+            try:
+                paths = [p for p in ctx.symex(inline_depth=2, loop_visits=2).run(nid) if not p.diverged]
+            except PathLimit:
+                raise CheckFailure('MUST-store-config: path limit in %s' % nid)
+            for p in paths:
+                aggs = [x for x in subterms(p.ret) if isinstance(x, tuple) and x and x[0] == 'aggr' and norm(str(x[1])) == adt_name] if p.ret is not None else []
+                for ag in aggs[:1]:
+                    for f in WANT:
+                        if f not in names or names.index(f) >= len(ag[3]):
+                            continue
+                        v = ag[3][names.index(f)]
+                        # verbatim: a parameter, or a pure projection (field / tuple position) of a parameter -- nothing computed, nothing conditional;
+                        # where the wire carries a name it must be the field's own (positions of a tuple carry none: FLOW-config-names follows those)
+                        x, chain = v, []
+                        while isinstance(x, tuple) and x and x[0] == 'fld':
+                            chain.append(x[2]); x = x[1]
+                        is_proj = isinstance(x, tuple) and x and x[0] == 'param'
+                        named_ = [c for c in chain if isinstance(c, str) and not c.isdigit()] + ([pname.get(x[1])] if is_proj and not chain else [])
+                        ok = is_proj and all(ALIASES.get(c, c) == f or c not in WANT for c in named_) and (not named_ or not chain or named_[0] == f or named_[0] not in WANT)
+                        n += 1
+                        r.instance(constructor=nid, field=f, stored=fmt(v)[:60], ok=ok)
+                        if not ok:
+                            r.violate(nid, 'config-not-stored-verbatim', f, '%s stores `%s` into %s.%s on a path (conditions: %s): the cache no longer holds / reports exactly the '
+                                      'configured %s' % (nid, fmt(v)[:60], adt_name.split('::')[-1], f, [fmt(c)[:40] + '==' + str(v_) for c, v_ in p.conds][:4], f),
+                                      where=ctx.where(nid), expected='%s: %s  (the parameter itself)' % (f, f))
+    r.require_floor(6 if ctx.has_sync else 3, 'stored configuration fields')
     return r
